@@ -40,11 +40,11 @@ Clauses == {"C06_MergeCommutes", "C06_MergeAssoc", "C06_MergeIdem", "C06_Converg
             "C06_AuthorisedMerge", "C06_Authorised", "C06_Closure"}
 
 \* ---- observed values
-OpSet(o) == [ops |-> S(o.ops), nf |-> o.nf]
+OpSet(o) == [ops |-> S(o.ops), nf |-> o.nf, pre |-> o.prefix]   \* pre: the fillers held are a prefix of the filler list
 Value(o) == [read |-> S(o.read), nfr |-> o.nfr]
 Obs(o) == [os |-> OpSet(o), val |-> Value(o), rerr |-> o.rerr]
 LawVal(x) == [ok |-> x.ok, ops |-> OpSet(x), read |-> Value(x)]
-WellFormedObs(o) == 0 \notin S(o.ops) /\ 0 \notin S(o.read) /\ o.prefix
+WellFormedObs(o) == 0 \notin S(o.ops) /\ 0 \notin S(o.read)
 Count(os) == os.nf + Cardinality(os.ops)
 
 \* ---- ghost state set up by a Reset event
@@ -120,7 +120,10 @@ Evaluations(e) ==
                 ~R!SameBase(b, bs) \/ after # before,
                 [NoFacts EXCEPT !.res = e.res, !.reasons = ReasonsOf(b, after \ before, {})]) }
            \cup (IF e.ev = "VerifiedMerge" /\ R!SameBase(b, bs)
-                 THEN {ClosureEv(e.res, g.cur[e.s].os, g.merged[e.s])} ELSE {})
+                 THEN LET src == g.cur[e.s].os  mine == g.cur[e.r].os
+                          fits == Max2(src.nf, mine.nf) + Cardinality(src.ops \cup mine.ops) <= g.limit
+                      IN {[ClosureEv(e.res, src, g.merged[e.s]) EXCEPT !.ok = R!C06_ClosureMerge(e.res, fits), !.nt = fits]}
+                 ELSE {})
            \cup ConvergeEvs(e) \cup VerEvs(e)
       [] e.ev = "VerifiedMergeCrafted" ->
            LET b == g.B[e.r]  before == g.cur[e.r].os.ops  after == S(e.obs.ops) IN
@@ -157,8 +160,8 @@ ExpectedOs(e) ==
     IF ~Ok(e) THEN cur
     ELSE CASE e.ev = "AddOp" -> [cur EXCEPT !.ops = @ \cup {e.o}]
            [] e.ev \in {"Merge", "VerifiedMerge"} ->
-                  [ops |-> cur.ops \cup g.cur[e.s].os.ops, nf |-> Max2(cur.nf, g.cur[e.s].os.nf)]
-           [] e.ev = "VerifiedMergeCrafted" -> [ops |-> cur.ops \cup S(e.cs), nf |-> Max2(cur.nf, e.cnf)]
+                  [ops |-> cur.ops \cup g.cur[e.s].os.ops, nf |-> Max2(cur.nf, g.cur[e.s].os.nf), pre |-> TRUE]
+           [] e.ev = "VerifiedMergeCrafted" -> [ops |-> cur.ops \cup S(e.cs), nf |-> Max2(cur.nf, e.cnf), pre |-> TRUE]
            [] OTHER -> cur
 ExpectedRes(e) ==
     CASE e.ev = "AddOp" -> {R!AddRes(g.P, g.B[e.r], Count(g.cur[e.r].os), g.limit, e.o)}
